@@ -173,6 +173,8 @@ pub enum T {
     Iter,
     /// `probe(i)`: effect P(i), passes its input (and, in path mode, its path) through
     Pass(i64),
+    /// `.[(Z)]` inside `path(..)`: an effectful, multi-valued index in path mode
+    IdxZ(Box<T>),
 }
 
 pub const ARR: [i64; 6] = [10, 20, 30, 40, 50, 60];
@@ -230,11 +232,12 @@ impl T {
             T::Idx(i) => format!(".[{i}]"),
             T::Iter => ".[]".into(),
             T::Pass(i) => format!("probe({i})"),
+            T::IdxZ(z) => format!(".[({})]", b(z)),
         }
     }
     /// effects sit in index / bound positions of a path (compared as sets, see c03.rs)
     pub fn has_path_effects(&self) -> bool {
-        if matches!(self, T::SliceTo(..) | T::IndexAt(_)) {
+        if matches!(self, T::SliceTo(..) | T::IndexAt(_) | T::IdxZ(_)) {
             return true;
         }
         let mut r = false;
@@ -254,7 +257,7 @@ impl T {
             }
             T::TryQ(a) | T::Label(_, a) | T::First(a) | T::Limit(_, a) | T::Skip(_, a) | T::Nth(_, a)
             | T::IsEmpty(a) | T::Any(a, _) | T::All(a, _) | T::Arr(a) | T::Rec(a) | T::Repeat(a)
-            | T::Recurse(a) | T::While(_, a) | T::Until(_, a) | T::SliceTo(_, a) | T::IndexAt(a) | T::PathOf(a) => f(a),
+            | T::Recurse(a) | T::While(_, a) | T::Until(_, a) | T::SliceTo(_, a) | T::IndexAt(a) | T::PathOf(a) | T::IdxZ(a) => f(a),
             T::Foreach(s, _, _, u, e) => {
                 f(s);
                 f(u);
@@ -835,6 +838,28 @@ fn eval_(t: &T, env: &Env) -> Stream {
             _ => once(Step::Err(X::Error(V::Str("not in path mode".into())))),
         },
         T::Pass(i) => steps(vec![Step::E(Ev::P(i.to_string())), Step::Out(env.dot.clone())]),
+        T::IdxZ(z) => {
+            // the index expression runs in value mode on the value at the current path
+            let here = env.dot.clone();
+            let plain_env = env.with_dot(here.plain().clone());
+            flat(eval(z, &plain_env), move |iv| match (&here, iv.plain()) {
+                (V::At(v, p), V::Int(i)) => {
+                    let e = match &**v {
+                        V::Arr(a) => {
+                            let len = a.len() as i64;
+                            let k = if *i < 0 { len + *i } else { *i };
+                            if (0..len).contains(&k) { a[k as usize].clone() } else { V::Null }
+                        }
+                        V::Null => V::Null,
+                        _ => return once(Step::Err(X::Error(V::Str("cannot index".into())))),
+                    };
+                    let mut p2 = p.clone();
+                    p2.push(*i);
+                    once(Step::Out(V::At(Box::new(e), p2)))
+                }
+                _ => once(Step::Err(X::Error(V::Str("cannot index".into())))),
+            })
+        }
         T::Range(a, b, by) => {
             let (mut cur, to, by) = (*a, *b, *by);
             Box::new(std::iter::from_fn(move || {
